@@ -326,7 +326,8 @@ def trailing_zeros(I, st, fr, t, a):
     return Term('tz', (v,), 32, 0, 128), st
 
 
-@summary('core::num::<impl u64>::count_ones', 'core::num::<impl u32>::count_ones')
+@summary('core::num::<impl u64>::count_ones', 'core::num::<impl u32>::count_ones', 'core::num::<impl u16>::count_ones',
+         'core::num::<impl u8>::count_ones', 'core::num::<impl usize>::count_ones', 'core::num::<impl u128>::count_ones')
 def count_ones(I, st, fr, t, a):
     v = a[0]
     if isinstance(v, BV):
@@ -967,6 +968,8 @@ def opaque_next(I, st, fr, t, a):
        call 3: havoc the written cells again, return None      [loop exit]"""
     r = a[0]
     ty = ret_ty(I, fr, t)
+    if fr is not None and isinstance(r, Ref) and not _site_in_loop(I, fr, t):
+        return straight_next(I, st, fr, t, a)
     key = ('loop', fr.id, t.get('at'), r.cell if isinstance(r, Ref) else None)
     ls = I.loops.get(key)
     elem_ty = None
@@ -1814,6 +1817,19 @@ def str_parse2(I, st, fr, t, a):
         v = I.deref(st, a[0]) if isinstance(a[0], Ref) else a[0]
         one_char = isinstance(v, Struct) and v.ty == '$charstr'
         I.ev('int-parse', fr.fname if fr else None, t.get('at'), 'one-char' if one_char else 'unbounded')
+        if one_char and getattr(I, 'precise_charparse', False) and target in ('usize', 'u8', 'u16', 'u32', 'u64'):
+            # decimal parse of a one-character string: Ok(c - '0') exactly for the ten ASCII digits (the integer parser of std
+            # accepts ASCII digits only; a lone '+' is an error)
+            c = v.fields[0]
+            ty = ret_ty(I, fr, t) or 'std::result::Result'
+            w = {'usize': 64, 'u8': 8, 'u16': 16, 'u32': 32, 'u64': 64}[target]
+            if isinstance(c, BV) and c.known():
+                if 48 <= c.uval() <= 57:
+                    return Enum(ty, 0, (BV.const(c.uval() - 48, w),)), st
+                return Enum(ty, 1, (Tok('ParseIntError'),)), st
+            at = B.atom('inrange', (c, 48, 57), payload=(c, 48, 57))
+            val = Term('affine', (c, -48), w, 0, 9)
+            return Ite(B.atom_bit(at), Enum(ty, 0, (val,)), Enum(ty, 1, (Tok('ParseIntError'),))), st
     return _prev_parse(I, st, fr, t, a)
 
 
@@ -2088,3 +2104,247 @@ def _checked(op):
 for _ty in ('u8', 'u16', 'u32', 'u64', 'usize'):
     TABLE['core::num::<impl %s>::checked_sub' % _ty] = _checked('sub')
     TABLE['core::num::<impl %s>::checked_add' % _ty] = _checked('add')
+
+
+@summary('std::iter::once')
+def iter_once(I, st, fr, t, a):
+    cell = ('static', 'once:%d' % next(I.frame_counter))
+    st.store[cell] = Seq([('elem', a[0])])
+    return Struct('$SliceIter', (Ref(cell), 0, 'owned')), st
+
+
+# ---- next() on an opaque iterator outside any loop: the k-th call yields the k-th item if there is one
+def _site_in_loop(I, fr, t):
+    body = fr.fn
+    inner, loops = I.loopinfo(body)
+    for bi, blk in enumerate(body['blocks']):
+        if blk['term'] is t:
+            return any(bi in bs for bs in loops.values())
+    return True
+
+
+def straight_next(I, st, fr, t, a):
+    r = a[0]
+    ty = ret_ty(I, fr, t) or OPT
+    cur = I.read_at(st, r.cell, r.path)
+    if isinstance(cur, Struct) and cur.ty == '$OpaqueSeqIter':
+        base, k = cur.fields
+    else:
+        base, k = 'it%d' % next(I.frame_counter), 0
+    elem_ty = _payload_ty(I, ty)
+    # "has more than k items": implied by "has more than k + 1 items"
+    prev = B.atom('itemcount>', (base, k - 1)) if k > 0 else None
+    at = B.atom('itemcount>', (base, k), M=[(('@', prev.id), True)] if prev is not None else ())
+    if elem_ty == 'char':
+        item = Term('tok', ('%s[%d]' % (base, k),), 32, 0, 0x10FFFF)
+    else:
+        item = I.fresh_value('%s[%d]' % (base, k), elem_ty)
+    st.store[r.cell] = I.update(st.store[r.cell], r.path, Struct('$OpaqueSeqIter', (base, k + 1)))
+    return Ite(B.atom_bit(at), some(item, ty), none(ty)), st
+
+
+# ---- slicing a concrete sequence by a constant range; collecting characters into a String
+_index_before_ranges = TABLE['<std::vec::Vec<T, A> as std::ops::Index<I>>::index']
+
+
+def index3(I, st, fr, t, a):
+    r = a[0]
+    v = I.deref(st, r)
+    idx = a[1]
+    if isinstance(v, Seq) and v.concrete() and isinstance(idx, Struct) and 'Range' in idx.ty:
+        n = len(v.items)
+        fs = [x for x in idx.fields]
+        lo, hi = 0, n
+        nm = idx.ty.split('<')[0].split('::')[-1]
+        vals = [x.uval() if isinstance(x, BV) and x.known() else None for x in fs]
+        if None not in vals:
+            if nm == 'RangeTo':
+                hi = vals[0]
+            elif nm == 'RangeFrom':
+                lo = vals[0]
+            elif nm == 'Range':
+                lo, hi = vals[0], vals[1]
+            elif nm == 'RangeFull':
+                pass
+            elif nm == 'RangeToInclusive':
+                hi = vals[0] + 1
+            else:
+                return _index_before_ranges(I, st, fr, t, a)
+            key = (fr.fname, t['at'], t['res']['path'])
+            if lo <= hi <= n:
+                I.asserts_ok[key] = I.asserts_ok.get(key, 0) + 1
+                cell = ('static', 'subslice:%d' % next(I.frame_counter))
+                items = []
+                for k in range(lo, hi):
+                    it = v.items[k]
+                    items.append(('elem', I.deref(st, it[1]) if isinstance(it[1], Ref) else it[1]))
+                st.store[cell] = Seq(items)
+                return Ref(cell), st
+            I.asserts_bad.setdefault(key, 'range %d..%d of a sequence of %d' % (lo, hi, n))
+            return BOTTOM, None
+    return _index_before_ranges(I, st, fr, t, a)
+
+
+TABLE['<std::vec::Vec<T, A> as std::ops::Index<I>>::index'] = index3
+PREFIX[:] = [(p_, (index3 if h_ is index2 else h_)) for (p_, h_) in PREFIX]
+
+_collect_before_string = TABLE['std::iter::Iterator::collect']
+
+
+def collect3(I, st, fr, t, a):
+    ty = ret_ty(I, fr, t) or ''
+    it = a[0]
+    if ty.startswith('std::string::String') and isinstance(it, Struct) and it.ty in ('$SliceIter', '$Map', '$Filter', '$Cloned'):
+        try:
+            items, st2 = drain(I, st, it)
+        except Exception as e:
+            if e.__class__.__name__ != 'Undecided':
+                raise
+            items = None
+        if items is not None and all(x[0] == 'elem' for x in items):
+            chars = [I.deref(st2, x[1]) if isinstance(x[1], Ref) else x[1] for x in items]
+            if all(isinstance(c, (BV, Term)) for c in chars):
+                cell = ('static', 'string:%d' % next(I.frame_counter))
+                st2.store[cell] = text_value(chars)
+                return Struct('$String', (Ref(cell),)), st2
+    return _collect_before_string(I, st, fr, t, a)
+
+
+TABLE['std::iter::Iterator::collect'] = collect3
+
+
+@summary('std::option::Option::<T>::zip')
+def opt_zip(I, st, fr, t, a):
+    ty = ret_ty(I, fr, t) or OPT
+    return opt_split(I, st, a[0], lambda s1, x: opt_split(I, s1, a[1], lambda s2, y: (some(Struct('tuple', (x, y)), ty), s2),
+                                                           lambda s2: (none(ty), s2)),
+                     lambda s1: (none(ty), s1))
+
+
+# ---- slice.get(i): Some(&elem) iff i < len  (concrete sequences and the constant hash tables)
+@summary('core::slice::<impl [T]>::get')
+def slice_get(I, st, fr, t, a):
+    ty = ret_ty(I, fr, t) or OPT
+    v = I.deref(st, a[0]) if isinstance(a[0], Ref) else a[0]
+    idx = a[1]
+
+    def one(k):
+        if isinstance(v, Struct) and v.ty == '$constarr':
+            name, idxs = v.fields
+            arr, dims = I.prog.const_u64_array(name)
+            if dims is None or len(idxs) >= len(dims):
+                raise from_undecided()('get on constant table %s' % name)
+            if k < dims[len(idxs)]:
+                cell = ('static', 'tblrow:%s:%s:%d' % (name, idxs, k))
+                st.store[cell] = Struct('$constarr', (name, idxs + (k,)))
+                return some(Ref(cell), ty)
+            return none(ty)
+        if isinstance(v, Seq) and v.concrete():
+            if k < len(v.items):
+                return some(Ref(a[0].cell, a[0].path + (('idx', BV.const(k, 64)),), False), ty) if isinstance(a[0], Ref) else some(v.items[k][1], ty)
+            return none(ty)
+        raise from_undecided()('slice::get on %r' % (v,))
+
+    def go(i):
+        if isinstance(i, Ite):
+            return I.merge(i.c, go(i.a), go(i.b))
+        if isinstance(i, BV) and i.known():
+            return one(i.uval())
+        if isinstance(i, BV):
+            unk = [j for j, b in enumerate(i.bits) if b.kind != 'c']
+            if len(unk) <= 3:
+                base = sum(1 << j for j, b in enumerate(i.bits) if b is C1)
+                out = None
+                for m in range(1 << len(unk)):
+                    val = base | sum((1 << unk[j]) for j in range(len(unk)) if (m >> j) & 1)
+                    r = one(val)
+                    out = r if out is None else I.merge(I.eq_const_bit(i, val), r, out)
+                return out
+        raise from_undecided()('slice::get with index %r' % (i,))
+    return go(idx), st
+
+
+# ---- flat_map over a concrete sequence: evaluate the closure per item and concatenate what it yields
+def iter_flat_map(I, st, fr, t, a):
+    it = a[0]
+    if isinstance(it, Struct) and it.ty in ('$SliceIter', '$Map', '$Filter', '$Cloned', '$Enumerate'):
+        items, st = drain(I, st, it)
+        out = []
+        for x in items:
+            if x[0] != 'elem':
+                raise from_undecided()('flat_map over a conditional item')
+            sub, st = I.call_closure(st, a[1], [x[1]])
+            if st is None:
+                return BOTTOM, None
+            sub_items, st = drain(I, st, sub)
+            out.extend(sub_items)
+        cell = ('static', 'flat:%d' % next(I.frame_counter))
+        st.store[cell] = Seq(out)
+        return Struct('$SliceIter', (Ref(cell), 0, 'owned')), st
+    raise from_undecided()('flat_map over %r' % (it,))
+
+
+TABLE['std::iter::Iterator::flat_map'] = iter_flat_map
+
+
+# ---- constant strings keep their text through to_string / to_lowercase / to_uppercase; ASCII case mapping of constant chars
+_to_string_before_lit = TABLE['<T as std::string::ToString>::to_string']
+
+
+def _lit_string(I, st, text):
+    cell = ('static', 'litstring:%d' % next(I.frame_counter))
+    v = Struct('$str', (text,))
+    I.static_cells[cell] = v
+    st.store[cell] = v
+    return Struct('$String', (Ref(cell),))
+
+
+def to_string3(I, st, fr, t, a):
+    v = I.deref(st, a[0]) if isinstance(a[0], Ref) else a[0]
+    if isinstance(v, Ref):
+        v = I.deref(st, v)
+    if isinstance(v, Struct) and v.ty == '$str':
+        return _lit_string(I, st, v.fields[0]), st
+    return _to_string_before_lit(I, st, fr, t, a)
+
+
+TABLE['<T as std::string::ToString>::to_string'] = to_string3
+
+
+def _str_case(lower):
+    def h(I, st, fr, t, a):
+        v = I.deref(st, a[0]) if isinstance(a[0], Ref) else a[0]
+        if isinstance(v, Ref):
+            v = I.deref(st, v)
+        if isinstance(v, Struct) and v.ty == '$String':
+            v = I.deref(st, v.fields[0])
+        if isinstance(v, Struct) and v.ty == '$str':
+            return _lit_string(I, st, v.fields[0].lower() if lower else v.fields[0].upper()), st
+        return typed_opaque(I, st, fr, t, a)
+    return h
+
+
+TABLE['std::str::<impl str>::to_lowercase'] = _str_case(True)
+TABLE['std::str::<impl str>::to_uppercase'] = _str_case(False)
+
+
+def _char_case(lower):
+    def h(I, st, fr, t, a):
+        v = I.deref(st, a[0]) if isinstance(a[0], Ref) else a[0]
+        if isinstance(v, BV) and v.known() and v.w == 32:
+            c = v.uval()
+            if lower and 65 <= c <= 90:
+                c += 32
+            if not lower and 97 <= c <= 122:
+                c -= 32
+            return BV.const(c, 32), st
+        if isinstance(v, Ite):
+            return I.merge(v.c, h(I, st, fr, t, [v.a])[0], h(I, st, fr, t, [v.b])[0]), st
+        return typed_opaque(I, st, fr, t, a)
+    return h
+
+
+for _p in ('std::char::methods::<impl char>::to_ascii_lowercase', 'core::char::methods::<impl char>::to_ascii_lowercase'):
+    TABLE[_p] = _char_case(True)
+for _p in ('std::char::methods::<impl char>::to_ascii_uppercase', 'core::char::methods::<impl char>::to_ascii_uppercase'):
+    TABLE[_p] = _char_case(False)
